@@ -7,5 +7,5 @@ CONSTANTS
   Tofs = {}
   TofN = 4
   TofR = 2
-INVARIANTS InvGeom InvG2 InvRefuse InvCommute InvSubset InvConserve InvNest InvTofK InvMapDef
+INVARIANTS InvGeom InvG2 InvRefuse InvCommute InvSubset InvConserve InvNest InvTofK InvMapDef InvInverse InvExtend InvDownsample
 CHECK_DEADLOCK FALSE
